@@ -22,5 +22,6 @@ run MC_Builder MC_Builder_rstdrop           # reset_pin() drops the options set 
 run MC_Builder MC_Builder_endcache          # window end cached by display_offset(), stale after display_size()
 run MC_Lifecycle MC_Lifecycle_flagfirst    # sleeping flag set before the command is sent
 run MC_Lifecycle MC_Lifecycle_short        # delay shorter than 120 ms
+run MC_Lifecycle MC_Lifecycle_skipredundant # a redundant sleep/wake skips its delay
 rm -rf /verif/work/neg.$$
 grep -c REJECTED $out
